@@ -11,7 +11,7 @@
    (C06_Hist.v, C06_Order.v), and the guards of insert / reset / the valid() gate are regenerated
    from the sources and linked to the model (C06_GenTie.v). *)
 From Coq Require Import List ZArith Lia Bool Sorted.
-From Muduo Require Import Gen_Consts Gen_C06 C06_Model C06_Proofs C06_Hist C06_Order C06_GenTie C06_Live C06_Marshal.
+From Muduo Require Import Gen_Consts Gen_C06 Gen_C07 C06_Model C06_Proofs C06_Hist C06_Order C06_GenTie C06_Live C06_Marshal C07_Model C07_Proofs.
 Import ListNotations.
 Local Open Scope Z_scope.
 
@@ -70,11 +70,14 @@ Theorem C06_add_unique : forall c ops st evs, run (init c) ops = Ok (st, evs) ->
 Proof. exact add_unique. Qed.
 Print Assumptions C06_add_unique.
 
-(* A one-shot (runAt / runAfter; interval <= 0) runs AT MOST ONCE in any trace: for every occurrence
+(* Encoding of the interval field (C06_Model.o_repeat): iv < 0 = not repeating (runAt / runAfter, interval <= 0.0);
+   iv >= 0 = repeating, iv = the delta Timer::restart adds = static_cast<int64_t>(interval * 1e6) us (0 for an
+   interval below one microsecond).
+   A one-shot (iv < 0) runs AT MOST ONCE in any trace: for every occurrence
    of a run of its sequence number there is no other before or after it; it is filed under the
    timer's own deadline w and happens at or after w (w <= batch instant <= clock at the callback). *)
 Theorem C06_oneshot_at_most_once : forall c ops st evs, run (init c) ops = Ok (st, evs) ->
-  forall s a w iv, In (EAdd s a w iv) evs -> iv <= 0 ->
+  forall s a w iv, In (EAdd s a w iv) evs -> iv < 0 ->
   forall l1 dl now t l2, evs = l1 ++ ERun s dl now t :: l2 ->
   dl = w /\ w <= now <= t /\
   (forall dl' now' t', ~ In (ERun s dl' now' t') l1) /\ (forall dl' now' t', ~ In (ERun s dl' now' t') l2).
@@ -85,7 +88,7 @@ Print Assumptions C06_oneshot_at_most_once.
    registered: it runs in that expiry, and that is its only run in the whole trace, whatever ops
    came before and whatever ops follow. *)
 Theorem C06_oneshot_exactly_once : forall c ops st evs a o script st' ev ops2 st2 evs2,
-  run (init c) ops = Ok (st, evs) -> hget a (heap st) = Some o -> o_iv o <= 0 ->
+  run (init c) ops = Ok (st, evs) -> hget a (heap st) = Some o -> o_iv o < 0 ->
   In (o_exp o, a) (timers st) -> o_exp o <= clk st -> fire st script = Ok (st', ev) ->
   run st' ops2 = Ok (st2, evs2) ->
   (exists t, In (ERun (o_seq o) (o_exp o) (clk st) t) ev) /\
@@ -93,10 +96,10 @@ Theorem C06_oneshot_exactly_once : forall c ops st evs a o script st' ev ops2 st
 Proof. exact oneshot_exactly_once. Qed.
 Print Assumptions C06_oneshot_exactly_once.
 
-(* A repeater (runEvery; interval iv > 0, first deadline w): the run that has k predecessors in the
+(* A repeater (runEvery; delta iv >= 0, first deadline w): the run that has k predecessors in the
    trace -- its (k+1)-th run -- is filed under a deadline >= w + k*iv and happens at or after it. *)
 Theorem C06_repeat_spacing : forall c ops st evs, run (init c) ops = Ok (st, evs) ->
-  forall s a w iv, In (EAdd s a w iv) evs -> 0 < iv ->
+  forall s a w iv, In (EAdd s a w iv) evs -> 0 <= iv ->
   forall l1 dl now t l2, evs = l1 ++ ERun s dl now t :: l2 ->
   w + Z.of_nat (length (runs_of s l1)) * iv <= dl /\ dl <= now <= t.
 Proof. exact repeat_spacing. Qed.
@@ -167,12 +170,12 @@ Theorem C06_liveness : forall (env : nat -> state -> op),
   hget a (heap st) = Some oA -> In (o_exp oA, a) (timers st) ->
   existsb (pf_cancels a (o_seq oA)) (pending st) = false ->
   (forall j st', op_cancels a (o_seq oA) (env j st') = false) ->
-  forall n stn evn, exec env n 0 st = Ok (stn, evn) ->
+  forall n stn evn, C06_Live.exec env n 0 st = Ok (stn, evn) ->
   (exists nA tA, In (ERun (o_seq oA) (o_exp oA) nA tA) evn) \/
   (hget a (heap stn) = Some oA /\ In (o_exp oA, a) (timers stn) /\
    exists x, armed stn = Some x /\ x <= Z.max (o_exp oA) (arm_at stn + TimerQueue_floor_val) /\
      (x <= clk stn -> o_exp oA <= clk stn ->
-      exists script st' ev' t, env n stn = Fire script /\ exec env 1 n stn = Ok (st', ev') /\
+      exists script st' ev' t, env n stn = Fire script /\ C06_Live.exec env 1 n stn = Ok (st', ev') /\
                                In (ERun (o_seq oA) (o_exp oA) (clk stn) t) ev')).
 Proof. exact liveness. Qed.
 Print Assumptions C06_liveness.
@@ -180,7 +183,7 @@ Theorem C06_liveness_bound : forall (env : nat -> state -> op) c ops st evs a oA
   hget a (heap st) = Some oA -> In (o_exp oA, a) (timers st) ->
   existsb (pf_cancels a (o_seq oA)) (pending st) = false ->
   (forall j st', op_cancels a (o_seq oA) (env j st') = false) ->
-  forall k stk evk script st' ev', exec env k 0 st = Ok (stk, evk) -> env k stk = Fire script -> o_exp oA <= clk stk ->
+  forall k stk evk script st' ev', C06_Live.exec env k 0 st = Ok (stk, evk) -> env k stk = Fire script -> o_exp oA <= clk stk ->
   step stk (Fire script) = Ok (st', ev') ->
   exists nA tA, In (ERun (o_seq oA) (o_exp oA) nA tA) (evk ++ ev').
 Proof. exact liveness_bound. Qed.
@@ -252,12 +255,58 @@ Theorem C06_generated_guards :
 Proof. exact (conj insert_is_source (conj reset_loop_is_source (conj valid_is_source (conj default_timestamp_invalid (conj gen_floor_same structure_facts))))). Qed.
 Print Assumptions C06_generated_guards.
 
+(* Timer::restart / addTime arithmetic, the destructor sweep and the EventLoop wrappers of the CURRENT sources
+   (regenerated from the clang AST; canonical text in Gen_C06.v): the interval (a double, seconds) enters the
+   deadline arithmetic only as delta = static_cast<int64_t>(interval * kMicroSecondsPerSecond), which is the
+   model's o_iv; restart(now) files a repeater under now + delta; repeat_ = (interval > 0.0); ~TimerQueue deletes
+   exactly timers_; runAt/runAfter/runEvery/cancel are the thin wrappers the harness assumes. *)
+Theorem C06_generated_arithmetic :
+  Timestamp_addTime_truncates_product = true /\ Timer_restart_adds_interval_to_now = true /\
+  Timer_ctor_repeat_iff_interval_positive = true /\ TimerQueue_dtor_deletes_exactly_timers = true /\
+  EventLoop_runAt_is_addTimer_interval_zero = true /\ EventLoop_runAfter_is_runAt_addTime_now = true /\
+  EventLoop_runEvery_first_deadline_is_now_plus_interval = true /\ EventLoop_cancel_forwards = true /\
+  TimerQueue_cancel_hands_off_cancelInLoop = true.
+Proof. exact structure_facts_arith. Qed.
+Print Assumptions C06_generated_arithmetic.
+
+(* What really holds for repeaters, on what addTime computes.  A repeater that is due in an expiry and that no
+   callback of the expiry cancels runs exactly once in it and is filed again under (batch instant + delta),
+   delta = o_iv >= 0 = trunc(interval * 1e6).  With C06_repeat_spacing: the run with k predecessors is filed under
+   a deadline >= first deadline + k*delta -- the property text's "(k-1) intervals" holds exactly iff the interval is
+   a whole number of microseconds that survives the double product (delta = interval*1e6); otherwise the spacing
+   guaranteed is delta < interval*1e6 < delta+1 per run (shortfall below one microsecond per run).
+   delta = 0 (interval below one microsecond): the repeater is filed under the batch instant itself; it does NOT
+   run a second time in the same expiry (C07_once_per_expiry) and the timerfd is re-armed no earlier than
+   clock + floor (100 us): the loop does not spin, the callback runs at most once per floor interval. *)
+Theorem C06_repeater_rescheduled : forall c ops st evs script st' ev d a o,
+  run (init c) ops = Ok (st, evs) -> fire st script = Ok (st', ev) ->
+  In (d, a) (timers st) -> d <= clk st -> hget a (heap st) = Some o -> 0 <= o_iv o ->
+  existsb (existsb (cb_cancels a (o_seq o))) script = false ->
+  hget a (heap st') = Some (mkT (o_seq o) (clk st + o_iv o) (o_iv o)) /\ In (clk st + o_iv o, a) (timers st') /\
+  length (runs_of (o_seq o) ev) = 1%nat /\
+  (forall x, armed st' = Some x -> clk st' + TimerQueue_floor_val <= x).
+Proof. exact repeater_rescheduled. Qed.
+Print Assumptions C06_repeater_rescheduled.
+
+(* doPendingFunctors as micro-steps.  (1) Executing the batch functor by functor, with arbitrary steps of the rest
+   of the world after each functor (mrun), IS the atomic RunPending over the batch woven with user functors.
+   (2) Commutation: a hand-off / queued cancel / queued user functor that lands WHILE a timer functor runs has
+   exactly the effect of the same step right after it (same state, same events) -- so placing foreign enqueues
+   between functors loses no behaviour. *)
+Theorem C06_run_pending_micro_steps :
+  (forall fs st between, mrun st fs between = run_functors st (weave fs between)) /\
+  (forall st f c st1 e1 stc ec, timer_functor f -> enqueue_step c ->
+     run_one st f = Ok (st1, e1) -> cb_step st c = Ok (stc, ec) ->
+     exists st2, cb_step st1 c = Ok (st2, []) /\ run_one stc f = Ok (st2, e1) /\ ec = []).
+Proof. exact (conj mrun_weave enqueue_commutes). Qed.
+Print Assumptions C06_run_pending_micro_steps.
+
 (* non-vacuity: a program with equal deadlines, a repeater, a nested add with a past deadline, a
    sibling cancel and a foreign add runs without rejection and produces runs *)
 Definition ex_ops : list op :=
-  [Cb (CAdd 1500 0 20); Cb (CAdd 1500 0 10); Cb (CAdd 1100 200 30); Cb (CTick 500);
-   Fire [[CCancel 20 1; CAdd 1400 0 40]; [CTick 10]; []]; Fire []; Cb (CFAdd 9000 0 50); RunPending;
-   Cb (CCancel 30 3); Cb (CAdd 1600 0 30); Cb (CCancel 30 3); Cb (CTick 100); Fire []].
+  [Cb (CAdd 1500 (-1) 20); Cb (CAdd 1500 (-1) 10); Cb (CAdd 1100 200 30); Cb (CTick 500);
+   Fire [[CCancel 20 1; CAdd 1400 (-1) 40]; [CTick 10]; []]; Fire []; Cb (CFAdd 9000 (-1) 50); RunPending;
+   Cb (CCancel 30 3); Cb (CAdd 1600 (-1) 30); Cb (CCancel 30 3); Cb (CTick 100); Fire []].
 Example C06_nonvacuous :
   match run (init 1000) ex_ops with
   | Ok (st, evs) => (length (filter (fun e => match e with ERun _ _ _ _ => true | _ => false end) evs) = 5)%nat
@@ -270,26 +319,26 @@ Proof. vm_compute. auto. Qed.
    times under deadlines 1100, 1700, 2300 (>= 1100 + k*200) at 1500, 2100, 2350, a one-shot (seq 2) runs once; the
    hypotheses of C06_repeat_spacing / C06_oneshot_at_most_once are inhabited by this trace *)
 Definition hist_ops : list op :=
-  [Cb (CAdd 1100 200 30); Cb (CAdd 1600 0 10); Cb (CTick 500); Fire []; Cb (CTick 600); Fire [];
+  [Cb (CAdd 1100 200 30); Cb (CAdd 1600 (-1) 10); Cb (CTick 500); Fire []; Cb (CTick 600); Fire [];
    Cb (CTick 250); Fire []].
 Example C06_history_nonvacuous :
   match run (init 1000) hist_ops with
   | Ok (st, evs) =>
-      In (EAdd 1 30 1100 200) evs /\ In (EAdd 2 10 1600 0) evs /\
+      In (EAdd 1 30 1100 200) evs /\ In (EAdd 2 10 1600 (-1)) evs /\
       rlog evs = [(1, 1100, 1500); (2, 1600, 2100); (1, 1700, 2100); (1, 2300, 2350)] /\
       (exists l1 l2, evs = l1 ++ ERun 1 2300 2350 2350 :: l2 /\ length (runs_of 1 l1) = 2%nat)
   | _ => False
   end.
 Proof.
   vm_compute. repeat split; auto 20.
-  exists [EArm 1000 100; EAdd 1 30 1100 200; EAdd 2 10 1600 0; ERun 1 1100 1500 1500; EArm 1500 100;
+  exists [EArm 1000 100; EAdd 1 30 1100 200; EAdd 2 10 1600 (-1); ERun 1 1100 1500 1500; EArm 1500 100;
           ERun 2 1600 2100 2100; ERun 1 1700 2100 2100; EArm 2100 200], [EArm 2350 200]. split; reflexivity.
 Qed.
 
 (* non-vacuity of C06_progress, second branch: the earliest timer (deadline 1500) is cancelled, the
    stale arming (1500) becomes readable at 1600 < 9000: the expiry runs nothing and re-arms for
    exactly max(9000, 1600 + 100); first branch: at 9000 the expiry runs the timer *)
-Definition stale_ops : list op := [Cb (CAdd 1500 0 10); Cb (CAdd 9000 0 20); Cb (CCancel 10 1); Cb (CTick 600)].
+Definition stale_ops : list op := [Cb (CAdd 1500 (-1) 10); Cb (CAdd 9000 (-1) 20); Cb (CCancel 10 1); Cb (CTick 600)].
 Example C06_progress_nonvacuous :
   match run (init 1000) stale_ops with
   | Ok (st, _) =>
@@ -308,9 +357,9 @@ Proof. vm_compute. auto 10. Qed.
    continuation B's run (filed under 1700 > 1500) is preceded by A's (left disjunct, with an actual
    split); if A is cancelled first, A never runs and is dead (right disjunct) *)
 Example C06_deadline_order_nonvacuous :
-  match run (init 1000) [Cb (CAdd 1700 0 20); Cb (CAdd 1500 0 10)] with
+  match run (init 1000) [Cb (CAdd 1700 (-1) 20); Cb (CAdd 1500 (-1) 10)] with
   | Ok (st, _) =>
-      hget 10 (heap st) = Some (mkT 2 1500 0) /\ In (1500, 10) (timers st) /\
+      hget 10 (heap st) = Some (mkT 2 1500 (-1)) /\ In (1500, 10) (timers st) /\
       existsb (pf_cancels 10 2) (pending st) = false /\
       forallb (fun o => negb (op_cancels 10 2 o)) [Cb (CTick 800); Fire [[CCancel 20 1]]] = true /\
       match run st [Cb (CTick 800); Fire []] with
@@ -334,9 +383,9 @@ Definition demo_env (i : nat) (st : state) : op :=
 Example C06_liveness_nonvacuous :
   (forall i st x, timers st <> [] -> armed st = Some x -> x <= clk st -> exists script, demo_env i st = Fire script) /\
   (forall a s j st', op_cancels a s (demo_env j st') = false) /\
-  match run (init 1000) [Cb (CAdd 1500 0 10)] with
+  match run (init 1000) [Cb (CAdd 1500 (-1) 10)] with
   | Ok (st, _) =>
-      match exec demo_env 13 0 st, exec demo_env 15 0 st with
+      match C06_Live.exec demo_env 13 0 st, C06_Live.exec demo_env 15 0 st with
       | Ok (s13, e13), Ok (s15, e15) => rlog e13 = [] /\ In (1500, 10) (timers s13) /\ rlog e15 = [(1, 1500, 1518)]
       | _, _ => False end
   | _ => False end.
@@ -352,10 +401,23 @@ Qed.
 (* non-vacuity of the foreign-add theorems: micro-steps of two foreign adds interleaved (allocation order
    differs from hand-off order), a user functor between them that performs another foreign micro-step *)
 Example C06_foreign_add_nonvacuous :
-  match run (init 1000) [Cb (CFNew 2000 0 10); Cb (CFNew 1800 0 20); Cb (CFEnq 20); Cb (CQueue [CFEnq 10; CTick 5]); RunPending] with
-  | Ok (st, evs) => In (EAdd 1 10 2000 0) evs /\ In (EAdd 2 20 1800 0) evs /\ timers st = [(1800, 20)] /\
+  match run (init 1000) [Cb (CFNew 2000 (-1) 10); Cb (CFNew 1800 (-1) 20); Cb (CFEnq 20); Cb (CQueue [CFEnq 10; CTick 5]); RunPending] with
+  | Ok (st, evs) => In (EAdd 1 10 2000 (-1)) evs /\ In (EAdd 2 20 1800 (-1)) evs /\ timers st = [(1800, 20)] /\
                     pending st = [PAdd 10] /\ inflight st = [] /\ armed st = Some 1800 /\
       match run st [RunPending; Cb (CTick 1000); Fire []] with
       | Ok (st2, ev2) => rlog ev2 = [(2, 1800, 2005); (1, 2000, 2005)] | _ => False end
+  | _ => False end.
+Proof. vm_compute. auto 10. Qed.
+
+(* non-vacuity of C06_repeater_rescheduled with delta 0 (an interval below one microsecond): the repeater added
+   under deadline 1500 runs once in the expiry at 1600, is filed under 1600, the timerfd is armed for 1700; an
+   expiry at 1700 runs it again (filed under 1600), one at 1650 would be a stale dispatch *)
+Example C06_zero_delta_nonvacuous :
+  match run (init 1000) [Cb (CAdd 1500 0 10); Cb (CTick 600)] with
+  | Ok (st, _) => In (1500, 10) (timers st) /\ hget 10 (heap st) = Some (mkT 1 1500 0) /\
+      match fire st [] with
+      | Ok (st', ev) => rlog ev = [(1, 1500, 1600)] /\ timers st' = [(1600, 10)] /\ armed st' = Some 1700 /\
+          match run st' [Cb (CTick 100); Fire []] with Ok (_, ev2) => rlog ev2 = [(1, 1600, 1700)] | _ => False end
+      | _ => False end
   | _ => False end.
 Proof. vm_compute. auto 10. Qed.
